@@ -1,6 +1,81 @@
-(* C10: placeholder until the soundness proof of the verifier is merged; the verifier on a compiled program. *)
-From BCL Require Import Model.Api Model.Verify.
+(* C10: Compiled bytecode is well-formed along every path.
+
+   Model/Verify.v is a bytecode verifier (one forward pass; labels = (operand-stack depth, block depth)
+   carried to the targets of forward jumps).  C10_check_sound: a program accepted by `verify` can only
+   end by RET with both stacks empty, by a documented runtime error, or by the excluded repetition case:
+   never a read outside the stack or the constant pool, a failed type assertion on a constant, a jump off
+   an instruction boundary, a run off the code, or the "non-empty stack" internal error -- whichever way
+   its conditional jumps go, including the operand a particular run skips (C10_both_branches).  The
+   depth is the same along all paths into each instruction (C10_depth_unique).  `verify` is run on the
+   code the REAL compiler produced for every generated program (certificate checking); that the compiler
+   only ever produces verifiable code is the conjunction of T2 and a labelling lemma for the code
+   generator, tested on every program, Coq proof in progress. *)
+From BCL Require Import Model.Vm Model.Verify Model.Api Proofs.OptionsProofs Proofs.VerifyProofs.
+Open Scope N_scope.
+
+Theorem C10_check_sound : forall p fuel tr, verify p = true ->
+  let (m, r) := run_fuel fuel p tr (init_vm p) in
+  match r with
+  | VOk => tos m = 0 /\ btos m = 0 /\ stack m = [] /\ bstack m = [] /\ rest m = []
+  | VErr _ _ => True
+  | VPanic POutOfFuel => True
+  | VPanic PExcluded => True
+  | VPanic _ => False
+  | VInternal _ => False
+  end.
+Proof. first [exact VerifyProofs.C10_check_sound | apply VerifyProofs.C10_check_sound]. Qed.
+Print Assumptions C10_check_sound.
+
+(* verified code only jumps forward: the fuel the API supplies is never exhausted *)
+Theorem C10_terminates : forall p fuel tr, verify p = true ->
+  (run_bound p <= fuel)%nat ->
+  snd (run_fuel fuel p tr (init_vm p)) <> VPanic POutOfFuel.
+Proof. first [exact VerifyProofs.C10_terminates | apply VerifyProofs.C10_terminates]. Qed.
+Print Assumptions C10_terminates.
+
+Theorem C10_execute : forall p tr, verify p = true ->
+  let (m, r) := run_fuel (run_bound p) p tr (init_vm p) in
+  match r with
+  | VOk => tos m = 0 /\ btos m = 0 /\ stack m = [] /\ bstack m = [] /\ rest m = []
+  | VErr _ _ => True
+  | VPanic PExcluded => True
+  | _ => False
+  end.
+Proof. first [exact VerifyProofs.C10_execute | apply VerifyProofs.C10_execute]. Qed.
+Print Assumptions C10_execute.
+
+(* acceptance yields a consistent labelling of every instruction boundary *)
+Theorem C10_labelling : forall p,
+  verify p = true -> exists L, well_labelled p L /\ functional L.
+Proof. first [exact VerifyProofs.verify_labelling | apply VerifyProofs.verify_labelling]. Qed.
+Print Assumptions C10_labelling.
+
+(* every reachable VM state sits at a labelled boundary with exactly the labelled depths *)
+Theorem C10_depth_unique : forall p, verify p = true ->
+  exists L, well_labelled p L /\ functional L /\
+    forall tr m, reachable p tr m ->
+      In (pc m, (tos m, btos m)) L /\ tos m = nlen (stack m) /\ btos m = nlen (bstack m) /\
+      rest m = code_at p (pc m).
+Proof. first [exact VerifyProofs.C10_depth_unique | apply VerifyProofs.C10_depth_unique]. Qed.
+Print Assumptions C10_depth_unique.
+
+Theorem C10_depth_unique_any : forall p L o l1 l2,
+  well_labelled p L -> In (o, l1) L -> In (o, l2) L -> l1 = l2.
+Proof. first [exact VerifyProofs.C10_depth_unique_any | apply VerifyProofs.C10_depth_unique_any]. Qed.
+Print Assumptions C10_depth_unique_any.
+
+(* both successors of a conditional jump are checked, also the one a run does not take *)
+Theorem C10_both_branches p L o d b b0 b1 r :
+  well_labelled p L -> In (o, (d, b)) L -> code_at p o = opJFALSE :: b0 :: b1 :: r ->
+  In (o + 3, (d, b)) L /\ In (o + 3 + (b0 * 256 + b1), (d, b)) L /\ 1 <= d.
+Proof. first [exact VerifyProofs.C10_both_branches | apply VerifyProofs.C10_both_branches]. Qed.
+Print Assumptions C10_both_branches.
+
+Theorem C10_blocks_balanced : forall p tr k m, verify p = true -> reach_cnt p tr k m ->
+  length (result m) = k /\ Forall isblk (result m) /\ btos m = nlen (bstack m) /\ Forall isblk (bstack m).
+Proof. first [exact VerifyProofs.C10_blocks_balanced | apply VerifyProofs.C10_blocks_balanced]. Qed.
+Print Assumptions C10_blocks_balanced.
+
 Example C10_example :
   verify (pr_prog (parse_whole (bs "input") (bs "var x = 1 and 2 or 3 def b { f = x and x } print x"))) = true.
 Proof. vm_compute. reflexivity. Qed.
-Print Assumptions C10_example.
